@@ -170,6 +170,24 @@ def numeric_laws(prog, adt, mul_comm=True):
             laws.append(("sub-inverts-add", A.apply("sub", add(a, b), b), a))
     except NotPoly as e:
         return [inst("LAW", "%s:semiring" % adt, UNDECIDED, A.ops.get("mul"), None, "operations are not polynomial terms: %s" % e)]
+    DEFS = {
+        "RealSemiring": {"add": lambda x, y: [x[0] + y[0]], "mul": lambda x, y: [x[0] * y[0]]},
+        "RationalSemiring": {"add": lambda x, y: [x[0] + y[0]], "mul": lambda x, y: [x[0] * y[0]]},
+        "Complex": {"add": lambda x, y: [x[0] + y[0], x[1] + y[1]],
+                    "mul": lambda x, y: [x[0] * y[0] - x[1] * y[1], x[0] * y[1] + x[1] * y[0]]},
+        # (probability, expected utility): probabilities multiply, utilities follow the product rule
+        "ExpectedUtility": {"add": lambda x, y: [x[0] + y[0], x[1] + y[1]],
+                            "mul": lambda x, y: [x[0] * y[0], x[0] * y[1] + x[1] * y[0]]},
+    }
+    if short in DEFS:
+        for opn, f in DEFS[short].items():
+            got = A.apply(opn, a, b)
+            want = f(a, b)
+            ok = all(dict(g) == dict(w) for g, w in zip(got, want))
+            laws_extra = "%s is the %s %s" % (opn, short, {"add": "sum", "mul": "product"}[opn])
+            detail = laws_extra if ok else "%s of %s is not its defining formula: component differs by %s" % (
+                opn, short, fmt_poly([g - w for g, w in zip(got, want) if dict(g) != dict(w)][0]))
+            out.append(inst("LAW", "%s:%s-definition" % (adt, opn), OK if ok else VIOLATION, A.ops[opn], None, detail))
     for nm, lhs, rhs in laws:
         ok = all(dict(l) == dict(r) for l, r in zip(lhs, rhs)) and len(lhs) == len(rhs)
         fn = A.ops["sub"] if nm.startswith("sub") else (A.ops["add"] if nm.startswith("add") else A.ops["mul"])
@@ -244,10 +262,13 @@ def field_laws(prog):
         fn = prog.find1(name=nm, self_adt=FFT, impl_trait=tr, unit="rsdd-lib")
         r = strip(fn.terms.ret)
         key = "%s:%s≡integer-%s" % (FFT, nm, nm)
-        if not mir.is_call(r, "new"):
-            out.append(inst("LAW", key, VIOLATION, fn, None, "result is not reduced through FiniteField::new"))
+        if r[0] == "agg" and r[2] == FFT:
+            inner = strip(r[4][0])          # a literal: range is NB-inv's business, congruence is checked here
+        elif mir.is_call(r, "new"):
+            inner = strip(r[2][0])
+        else:
+            out.append(inst("LAW", key, UNDECIDED, fn, None, "result is neither FiniteField::new(..) nor a literal"))
             continue
-        inner = strip(r[2][0])
         # resolve a single-multiplication helper arm: mul_mod(a, b) with γ(P <= 2^64; .. (a*b)%P ..)
         terms = []
         if mir.is_call(inner) and inner[1].local:
@@ -259,10 +280,18 @@ def field_laws(prog):
                     if x[0] == "bin" and x[1] == "Rem" and strip(x[3]) == ("cparam", "P"):
                         terms.append((x[2], {(1, "v"): None}, g))
         else:
-            x = inner
-            if x[0] == "bin" and x[1] == "Rem" and strip(x[3]) == ("cparam", "P"):
-                x = x[2]
-            terms.append((x, None, fn))
+            def leaves(x):
+                x = strip(x)
+                if x[0] in ("gamma", "phi"):
+                    out_ = []
+                    for _, v in x[2]:
+                        out_ += leaves(v)
+                    return out_
+                if x[0] == "bin" and x[1] == "Rem" and strip(x[3]) == ("cparam", "P"):
+                    return leaves(x[2])
+                return [x]
+            for x in leaves(inner):
+                terms.append((x, None, fn))
         a, b = Poly.var("a"), Poly.var("b")
         decided = False
         errs = []
